@@ -41,10 +41,11 @@ func c18Pool(thorough bool) []c18Val {
 	vs = append(vs, c18Val{"MyFloat.new(2.5)", "f1_5", "flt", "5", 1}, c18Val{"MyFloat.new(0.0)", "f1_0", "flt", "0", 1})
 	// negative zero: the same number as 0.0 in == and in the order
 	vs = append(vs, c18Val{"(0.0 * -1.0)", "f0_0", "flt", "0", 0}, c18Val{"MyFloat.new(0.0 * -1.0)", "f1_0", "flt", "0", 1})
-	for _, s := range []string{"", "a", "b", "ab", "B"} {
+	// (multi-byte characters: the order is that of the code points, the same as the bytewise order of UTF-8)
+	for _, s := range []string{"", "a", "b", "ab", "B", "é", "héllo", "héllp", "hé", "日本", "日本語", "añb", "z"} {
 		vs = append(vs, c18Val{fmt.Sprintf("%q", s), "s0_" + s, "str", s, 0})
 	}
-	vs = append(vs, c18Val{"MyStr.new(\"a\")", "s1_a", "str", "a", 1}, c18Val{"MyStr.new(\"\")", "s1_", "str", "", 1})
+	vs = append(vs, c18Val{"MyStr.new(\"a\")", "s1_a", "str", "a", 1}, c18Val{"MyStr.new(\"\")", "s1_", "str", "", 1}, c18Val{"MyStr.new(\"héllo\")", "s1_héllo", "str", "héllo", 1})
 	vs = append(vs, c18Val{src: "nil", enc: "n"})
 	vs = append(vs,
 		c18Val{src: "[]", enc: "[]"}, c18Val{src: "[1]", enc: "[i0_1]"}, c18Val{src: "[1, 2]", enc: "[i0_1;i0_2]"}, c18Val{src: "[[1], \"a\"]", enc: "[[i0_1];s0_a]"},
